@@ -66,6 +66,8 @@ def txn_strategy(allow, max_recs=4):
 def restore_strategy():
     rec = st.one_of(
         st.tuples(st.just('new'), st.integers(0, 2 ** 16), st.sampled_from(PAD_SIZES)),
+        # (ids in other 6-byte prefix groups: the oid index then has several buckets)
+        st.tuples(st.just('new'), st.sampled_from([2 ** 16 + 1, 2 ** 17 + 5, 2 ** 24 + 1, 2 ** 40 + 3]), st.sampled_from(PAD_SIZES)),
         st.tuples(st.just('upd'), st.integers(0, 30), st.sampled_from(PAD_SIZES)),
         st.tuples(st.just('gone'), st.integers(0, 30)),
         st.tuples(st.just('copy'), st.integers(0, 30), st.integers(0, 3)),
